@@ -7,21 +7,21 @@ Local Open Scope N_scope.
 (** local window 1: after one accepted byte the window is 0 for ever *)
 Lemma window_1_stuck : exists rmp lws lmp rw ops,
   0 < rmp /\ 1 <= lws /\
-  let s := run true rmp lws lmp (init rw lws) ops in
+  let s := run true [] rmp lws lmp (init rw lws) ops in
   lclosed s = false /\ live s = true /\ lwl s = 0 /\ adjusted (log s) = 0 /\
   forall d, d <> [] -> overruns lmp s (RData d) = true.
 Proof.
   exists 1, 1, 1, 0, [RData [7]]. split; [lia|]. split; [lia|]. cbv zeta.
   repeat split; try (vm_compute; reflexivity).
   intros d Hd. destruct d as [|x r]; [congruence|]. cbn [overruns]. 
-  replace (lwl (run true 1 1 1 (init 0 1) [RData [7]])) with 0 by (vm_compute; reflexivity).
+  replace (lwl (run true [] 1 1 1 (init 0 1) [RData [7]])) with 0 by (vm_compute; reflexivity).
   rewrite len_cons. destruct (N.ltb_spec 0 (1 + len r)); [reflexivity|lia].
 Qed.
 
 (** once CLOSE has been sent no routine sends data any more (for either variant of addWindowBytes) *)
-Lemma closed_sends_nothing hold rmp lws lmp : forall more s, lclosed s = true ->
-  lclosed (run hold rmp lws lmp s more) = true /\
-  xbytes (log (run hold rmp lws lmp s more)) = xbytes (log s).
+Lemma closed_sends_nothing hold hook rmp lws lmp : forall more s, lclosed s = true ->
+  lclosed (run hold hook rmp lws lmp s more) = true /\
+  xbytes (log (run hold hook rmp lws lmp s more)) = xbytes (log s).
 Proof.
   assert (Hcc : forall s, lclosed s = true -> lclosed (channel_closed s) = true /\ xbytes (log (channel_closed s)) = xbytes (log s)).
   { intros s H. unfold channel_closed. destruct s. cbn in *. destruct live; cbn; rewrite ?xbytes_app, ?app_nil_r; auto. }
@@ -47,11 +47,20 @@ Proof.
   assert (Hxa : forall es s, lclosed s = true -> lclosed (write_ext_all rmp s es) = true /\ xbytes (log (write_ext_all rmp s es)) = xbytes (log s)).
   { induction es as [|[t d] r IH]; intros s H; [cbn; auto|]. cbn [write_ext_all fold_left fst snd].
     destruct (Hx s t d H) as [A B]. destruct (IH _ A) as [C D]. split; [exact C|]. unfold write_ext_all in D. rewrite D, B. reflexivity. }
-  assert (Ha : forall s n, lclosed s = true -> lclosed (add_window hold rmp s n) = true /\ xbytes (log (add_window hold rmp s n)) = xbytes (log s)).
+  assert (Ha : forall s n, lclosed s = true -> lclosed (add_window hold hook rmp s n) = true /\ xbytes (log (add_window hold hook rmp s n)) = xbytes (log s)).
   { intros s n H. unfold add_window.
     set (s2 := if _ && _ then _ else _).
     assert (lclosed s2 = true /\ xbytes (log s2) = xbytes (log s)) as [H2 X2].
-    { unfold s2. destruct (_ && _); cbn; rewrite ?xbytes_app, ?app_nil_r; auto. }
+    { assert (Hh : forall hk t, lclosed t = true ->
+                lclosed (fold_left (fun s h => match h with HWrite d => write rmp s d | HWriteExt t0 d => write_ext rmp s t0 d end) hk t) = true /\
+                xbytes (log (fold_left (fun s h => match h with HWrite d => write rmp s d | HWriteExt t0 d => write_ext rmp s t0 d end) hk t)) = xbytes (log t)).
+      { induction hk as [|h r IHh]; intros t Ht; [cbn; auto|]. cbn [fold_left].
+        destruct h as [d|t0 d].
+        - destruct (Hw t d Ht) as [A B]. destruct (IHh _ A) as [C D]. split; [exact C|]. rewrite D. exact B.
+        - destruct (Hx t t0 d Ht) as [A B]. destruct (IHh _ A) as [C D]. split; [exact C|]. rewrite D. exact B. }
+      unfold s2. destruct (_ && _); [|cbn; auto]. unfold run_hook.
+      destruct (Hh hook (emit CbStart (set_writing true (set_rwl (rwl s + n) s))) H) as [A B].
+      split; [exact A|]. rewrite B. cbn. rewrite xbytes_app, app_nil_r. reflexivity. }
     set (s3 := match buf s2 with [] => s2 | _ => _ end).
     assert (lclosed s3 = true /\ xbytes (log s3) = xbytes (log s)) as [H3 X3].
     { unfold s3. destruct (buf s2); [auto|]. destruct (Hw (set_buf [] s2) (n0 :: b) H2) as [A B]. split; [exact A|]. rewrite B. exact X2. }
@@ -63,7 +72,7 @@ Proof.
       + split; [exact A|]. cbn [log set_closing]. rewrite B. exact X3.
     - destruct (Hxa (p :: l) (set_ext [] s3) H3) as [A B]. split; [exact A|]. rewrite B. exact X3. }
   induction more as [|o r IH]; intros s H; [cbn; auto|]. cbn [run fold_left].
-  assert (lclosed (step hold rmp lws lmp s o) = true /\ xbytes (log (step hold rmp lws lmp s o)) = xbytes (log s)) as [A B].
+  assert (lclosed (step hold hook rmp lws lmp s o) = true /\ xbytes (log (step hold hook rmp lws lmp s o)) = xbytes (log s)) as [A B].
   { destruct o; cbn [step]; auto.
     - unfold recv_adjust. destruct (live s); cbn [negb]; [auto|]. cbn. rewrite xbytes_app, app_nil_r. auto.
     - unfold recv_data. destruct (live s); cbn [negb]; [|cbn; rewrite xbytes_app, app_nil_r; auto].
@@ -83,11 +92,11 @@ Qed.
     sends  EXT(1,"a")  CLOSE  and never EXT(2,"b") *)
 Lemma pinned_witness : exists rmp lws lmp rw ops o,
   0 < rmp /\
-  let s := run false rmp lws lmp (init rw lws) ops in
-  let s' := step false rmp lws lmp s o in
+  let s := run false [] rmp lws lmp (init rw lws) ops in
+  let s' := step false [] rmp lws lmp s o in
   lclosed s = false /\ lclosed s' = true /\ overruns lmp s o = false /\
   xbytes (log s') <> xwritten (ops ++ [o]) /\
-  forall more, xbytes (log (run false rmp lws lmp s' more)) = xbytes (log s').
+  forall more, xbytes (log (run false [] rmp lws lmp s' more)) = xbytes (log s').
 Proof.
   exists 5, 4, 4, 0, [WriteExt 1 [97]; WriteExt 2 [98]; Lose], (RAdjust 9).
   split; [lia|]. cbv zeta. split; [vm_compute; reflexivity|]. split; [vm_compute; reflexivity|].
@@ -97,7 +106,7 @@ Qed.
 
 (** the same history on the repaired machine: both entries, then CLOSE *)
 Example repaired_flushes_both :
-  pkts (log (run true 5 4 4 (init 0 4) [WriteExt 1 [97]; WriteExt 2 [98]; Lose; RAdjust 9]))
+  pkts (log (run true [] 5 4 4 (init 0 4) [WriteExt 1 [97]; WriteExt 2 [98]; Lose; RAdjust 9]))
   = [PExt 1 [97]; PExt 2 [98]; PClose].
 Proof. vm_compute. reflexivity. Qed.
 
@@ -105,9 +114,18 @@ Proof. vm_compute. reflexivity. Qed.
     both streams, close requested, window arriving in pieces; the last adjust triggers CLOSE *)
 Example close_hypotheses_inhabited :
   let ops := [Write [1;2;3;4]; WriteExt 1 [5;6]; WriteExt 2 [7]; Write [8]; Lose; RAdjust 2; RData [9;9;9]] in
-  let s := run true 2 4 3 (init 1 4) ops in
-  let s' := step true 2 4 3 s (RAdjust 9) in
+  let s := run true [] 2 4 3 (init 1 4) ops in
+  let s' := step true [] 2 4 3 s (RAdjust 9) in
   lclosed s = false /\ buf s = [4;8] /\ ext s = [(1, [5;6]); (2, [7])] /\ closing s = true /\
   overruns 3 s (RAdjust 9) = false /\ lclosed s' = true /\
   pkts (log s') = [PData [1]; PData [2;3]; PAdjust 3; PData [4;8]; PExt 1 [5;6]; PExt 2 [7]; PClose].
 Proof. vm_compute. repeat split; reflexivity. Qed.
+
+(** re-entrant application: startWriting() writes "YZ" (normal) and "e" (extended) synchronously.  Backlog "bcd" with
+    no window; WINDOW_ADJUST 6: the hook's normal data goes out BEHIND the normal backlog (the extended stream
+    has no backlog, so its byte is sent at once) *)
+Example hook_data_follows_backlog :
+  let hook := [HWrite [89; 90]; HWriteExt 1 [101]] in
+  pkts (log (run true hook 4 8 8 (init 1 8) [Write [97; 98; 99; 100]; RAdjust 6]))
+  = [PData [97]; PExt 1 [101]; PData [98; 99; 100; 89]; PData [90]].
+Proof. vm_compute. reflexivity. Qed.
